@@ -60,15 +60,20 @@ pub fn exec(w: &[&str], obs: &mut Obs) -> Option<String> {
             let t2 = TextTape::from_slice(&out).map(|t| show::text_tape(t.tokens())).unwrap_or("err:parse".to_string());
             Some(format!("{} {} {} {}", t1, hex(&out), t2, if t1 == t2 { "same" } else { "DIFFERENT" }))
         }
-        // implementation-only: `write_tape` into a writer that takes <cap> bytes and then fails must return
-        // Err (never panic) iff the output is longer, and what reached the writer is a prefix of the full output
-        ["x-wtapew", c, f, cap_s, h] => {
+        // `write_tape` into a writer that takes <cap> bytes and then fails (model: writeTapeF, Model/WriterSink.lean):
+        // must return Err(io) (never panic) iff the output is longer, and what reached the writer is a prefix of the
+        // full output
+        ["wtapew", c, f, cap_s, h, tape_txt] => {
             let ic: u8 = c.parse().ok()?;
             let fac: u8 = f.parse().ok()?;
             let cap: usize = cap_s.parse().ok()?;
             let input = unhex(h)?;
             let case = w.join(" ");
-            let tape = match TextTape::from_slice(&input) { Ok(t) => t, Err(_) => return Some("err:parse".to_string()) };
+            let tape = match TextTape::from_slice(&input) {
+                Ok(t) => t,
+                Err(_) => { if *tape_txt != "err" { return Some("bad-case".to_string()); } return Some("err:parse".to_string()); }
+            };
+            if show::text_tape(tape.tokens()) != *tape_txt { return Some("bad-case".to_string()); }
             let full = match write_with(&tape, ic, fac) { Ok(o) => o, Err(e) => return Some(e) };
             let mut sink = FailingWriter { cap, got: vec![] };
             let res = {
@@ -82,17 +87,19 @@ pub fn exec(w: &[&str], obs: &mut Obs) -> Option<String> {
             if ok != (cap >= full.len()) {
                 obs.violation("failing-writer-result", &case, &format!("cap {} output length {} result ok={}", cap, full.len(), ok));
             }
-            if let Err(e) = &res {
-                if !matches!(e.kind(), jomini::ErrorKind::Io(_)) { obs.violation("failing-writer-error-kind", &case, &format!("{:?}", e.kind())); }
-            }
+            let kind = match &res {
+                Ok(()) => "ok".to_string(),
+                Err(e) => match e.kind() { jomini::ErrorKind::Io(_) => "err:io".to_string(), jomini::ErrorKind::StackEmpty { .. } => "err:stackempty".to_string(), k => { obs.violation("failing-writer-error-kind", &case, &format!("{:?}", k)); "err:other".to_string() } },
+            };
             obs.count(if ok { "wtapew:ok" } else { "wtapew:err" });
-            Some(if ok { "ok".to_string() } else { format!("err:{}", sink.got.len()) })
+            Some(format!("{} {}", kind, hex(&sink.got)))
         }
         _ => None,
     }
 }
 
 /// a sink that accepts `cap` bytes and then fails every non-empty write
+#[derive(Debug)]
 pub struct FailingWriter { pub cap: usize, pub got: Vec<u8> }
 impl std::io::Write for FailingWriter {
     fn write(&mut self, buf: &[u8]) -> std::io::Result<usize> {
@@ -466,9 +473,11 @@ pub fn gen_c14(g: &mut Gen) {
     g.count("full-document-type");
 
     // 2f. `write_tape` into a writer that fails after n bytes, n = 0..=len (implementation-only)
-    for t in [&b"a=b"[..], b"a={ b=c d={ 1 2 } } e=rgb { 1 2 3 }", b"a={ [[p] k=v ] x=\"q\" } b={ 1 c=d { e } }", b"k > 1 z={ } y={ {} }"] {
+    for t in [&b"a=b"[..], b"a={ b=c d={ 1 2 } } e=rgb { 1 2 3 }", b"a={ [[p] k=v ] x=\"q\" } b={ 1 c=d { e } }", b"k > 1 z={ } y={ {} }",
+              b"a={ [[!p] k=v l={ m } ] [[!q] r ] }", b"a={ 1 b=c { d } = e f<g } \"q\"={ \"r\" }"] {
         let full_len = TextTape::from_slice(t).ok().and_then(|tp| write_with(&tp, b' ', 2).ok()).map_or(0, |o| o.len());
-        for cap in 0..=full_len + 1 { g.emit(format!("x-wtapew 32 2 {} {}", cap, hex(t))); }
+        let tp = TextTape::from_slice(t).map(|x| show::text_tape(x.tokens())).unwrap_or("err".to_string());
+        for cap in 0..=full_len + 1 { g.emit(format!("wtapew 32 2 {} {} {}", cap, hex(t), tp)); }
     }
     let n = g.budget(300, 6_000);
     for _ in 0..n {
@@ -476,7 +485,8 @@ pub fn gen_c14(g: &mut Gen) {
         if text.len() > 300 { continue; }
         let (ic, fac) = indent_cfg(&mut g.rng);
         let cap = g.rng.below(2 * text.len() + 4);
-        g.emit(format!("x-wtapew {} {} {} {}", ic, fac, cap, hex(&text)));
+        let tp = TextTape::from_slice(&text).map(|x| show::text_tape(x.tokens())).unwrap_or("err".to_string());
+        g.emit(format!("wtapew {} {} {} {} {}", ic, fac, cap, hex(&text), tp));
     }
     g.count("failing-writer");
 
